@@ -173,7 +173,10 @@ def driver_of(b, h, blocks, bb=None, stop_named=True):
 
 PRESERVING = {"lines", "par_lines", "collect", "deref", "deref_mut", "chunks", "par_chunks", "rchunks", "par_rchunks", "par_iter", "iter", "into_iter",
               "into_par_iter", "par_bridge", "to_vec", "cloned", "copied", "as_slice", "as_str", "as_ref", "borrow", "to_owned",
-              "to_string", "clone", "enumerate", "from", "into", "collect_into_vec", "from_iter", "as_bytes", "split_inclusive"}
+              "to_string", "clone", "enumerate", "from", "into", "collect_into_vec", "from_iter", "as_bytes", "split_inclusive",
+              # content-based steps: they select or combine elements by what they are, not by where they are
+              "filter", "filter_map", "flat_map", "flat_map_iter", "fold", "reduce", "flatten", "union", "extend", "chain",
+              "with_min_len", "with_max_len", "new", "unwrap", "expect", "lock", "read", "write"}
 # a `map` keeps one output per input whatever its closure does; what matters is that the closure does not itself pick a sub-range
 SUBRANGE = {"index", "index_mut", "get", "get_mut", "get_unchecked", "split_at", "split_off", "truncate", "drain", "take", "skip", "step_by",
             "chunks_exact", "windows", "nth", "first", "last", "split_first", "split_last", "take_while", "skip_while"}
@@ -260,3 +263,32 @@ def _closure_calls(prog, body, op):
     for x in prog.family(key):
         out.extend((x, c) for c in x.calls())
     return key, out
+
+
+def check_parallel_coverage(R, rule, bodies, whole_call_prefixes=(), floor=1, what="parallel worker pipelines"):
+    """obligation per rayon adaptor call in `bodies`: its input reaches it from parameters / captures / complete results of calls
+    into `whole_call_prefixes` only through element-preserving steps"""
+    prog = R.prog
+    n = 0
+    for b in sorted(bodies, key=lambda x: x.key):
+        for c in b.calls():
+            if c.name() not in ("map", "flat_map", "flat_map_iter", "filter_map", "for_each", "map_init", "fold", "try_for_each", "filter") or len(c.args) < 2:
+                continue
+            if "rayon" not in ((c.callee or "") + (c.pretty or "")):
+                continue
+            n += 1
+            R.saw(b)
+            terms = []
+            coverage_terminals(prog, b, c.args[0], set(), terms)
+
+            def whole(t):
+                return t[0] in ("param", "doc", "capture") or (t[0] == "call" and len(t) > 3 and t[3].startswith(tuple(whole_call_prefixes)) and bool(whole_call_prefixes))
+            roots = [t for t in terms if whole(t)]
+            other = [t for t in terms if not whole(t)]
+            ok = len(roots) >= 1 and not other
+            R.ob(rule, "coverage:%s:%s:%s" % (b.short, c.name(), c.ln and "" or ""), "the parallel `%s` in %s ranges over its whole input (%s)" % (c.name(), b.short,
+                 ", ".join(sorted({str(t[1]) for t in roots})) or "?"), ok, where=b.where(c.ln),
+                 detail=None if ok else "not a total partition by construction: also computed from %s - elements outside the hand-made batches "
+                 "are never processed, and how many depends on the worker count"
+                 % "; ".join(sorted({"%s%s" % (t[1], (" (line %s)" % t[2]) if t[2] else "") for t in other})))
+    R.floor(rule, what, n, floor)
